@@ -145,6 +145,8 @@ class SamplingHandler:
                 if v not in vals:
                     vals.append(v)
             out = [vals[self._choose(len(vals), "choice-r")] for _ in range(k)]
+            if self.model is None and k == self.ncross * self.nparent:
+                self.model = list(out)       # this sample IS the table (no shuffle follows on that path)
         elif self.ordered_choice:
             for _ in range(k):
                 vals = []
